@@ -5,6 +5,13 @@
 // identity in allocation order, and records after every call its result,
 // the change counter of every directory, the link count of every leaf, and
 // whether every directory lock is free again (VerifLockIsFree).
+//
+// A history names the front end its kernel-facing calls are delivered
+// through: "direct" (the virtual.Directory API), "fuse"
+// (fuse.NewSimpleRawFileSystem, front_fuse.go) or "nfs41" (NewNFS41Program
+// COMPOUNDs over NewNFSHandleAllocator, front_nfs.go).  What the front end
+// answers is canonicalised (front.go, coq/theories/Dir/Front.v) into the
+// same case record and judged by the same Dir.Corr.check_case.
 package main
 
 import (
@@ -51,11 +58,13 @@ type hop struct {
 	R  []int   `json:"r,omitempty"` // filter: leaves to remove
 	S  int     `json:"s,omitempty"` // filter: 1 + leaf to stop at
 	T  int     `json:"t,omitempty"` // hooks tag
+	V  int     `json:"v,omitempty"` // front-end variant of a listing (FUSE: bit 0 ReadDirPlus, bit 1 "." and ".." fetched on their own; NFS: bit 0 zero cookie verifier, bit 1 dircount limit)
 }
 
 type history struct {
-	CI  bool  `json:"ci"`
-	Ops []hop `json:"ops"`
+	CI    bool   `json:"ci"`
+	Front string `json:"front,omitempty"` // "" / "direct", "fuse", "nfs41"
+	Ops   []hop  `json:"ops"`
 }
 
 var names = []string{"a", "A", ".h", "b", "B", ".H", "c", ".hx", "d", "C"}
@@ -65,9 +74,9 @@ const maxDirs = 10
 type area struct{}
 
 func (area) Requires() string {
-	return "From VF Require Import Common.Verdict Dir.Model Dir.Corr.\nOpen Scope string_scope."
+	return "From VF Require Import Common.Verdict Dir.Model Dir.Corr Dir.Front.\nOpen Scope string_scope."
 }
-func (area) Check() string { return "check_case" }
+func (area) Check() string { return "check_fcase" }
 func (area) Rule() string {
 	return "histories of 40-100 calls (thorough: up to 300) on a tree of <=10 directories below a fresh root, names from {a,A,b,B,c,C,d,.h,.H,.hx} (.h* hidden), case-insensitive normaliser in every second history; calls: VirtualLookup/OpenChild/Mkdir/Mknod/Link/Remove/Rename/ReadDir (pages of 1-4, resumed from the last, an earlier or an arbitrary cookie), LookupChild, LookupAllChildren, ReadDir, Remove, RemoveAll, RemoveAllChildren, CreateChildren, CreateAndEnterPrepopulatedDirectory, FilterChildren, InstallHooks; 3% of the calls are a VirtualReadDir racing with a rename/mknod/unlink in the same directory while a parked VirtualOpenChild holds the lock of a child directory (the listing drops its lock and re-seeks; recorded as the two pages it must be equivalent to); allocator failures injected in 5% of creations; every history ends with a full listing of every directory; non-trivial = at least one successful rename that replaced an entry or crossed directories, one successful removal, and one multi-page listing read to its end; distinct by hash of the full case term"
 }
@@ -77,7 +86,17 @@ func (area) Generate(r *rng.R, thorough bool, index int) json.RawMessage {
 	if thorough {
 		n = 60 + r.Intn(241)
 	}
-	h := history{CI: index%2 == 1}
+	h := history{CI: index%2 == 1, Front: "direct"}
+	// front end of the kernel-facing calls: quick 70/15/15, thorough 50/25/25
+	cut := 70
+	if thorough {
+		cut = 50
+	}
+	if x := r.Intn(100); x >= cut+(100-cut)/2 {
+		h.Front = "nfs41"
+	} else if x >= cut {
+		h.Front = "fuse"
+	}
 	nd := 3 + r.Intn(6) // directory indices are taken modulo the number of existing directories
 	nn := 3 + r.Intn(5)
 	name := func() int { return r.Intn(nn) }
@@ -131,6 +150,7 @@ func (area) Generate(r *rng.R, thorough bool, index int) json.RawMessage {
 		case x < 77:
 			o.K = "vreaddir"
 			o.P = 1 + r.Intn(4)
+			o.V = r.Intn(4)
 			switch y := r.Intn(100); {
 			case y < 25:
 				o.M = 0
@@ -180,6 +200,10 @@ func (area) Generate(r *rng.R, thorough bool, index int) json.RawMessage {
 		if r.Chance(3) {
 			o = hop{K: "race", D: r.Intn(nd), N: name(), D2: r.Intn(nd), L: r.Intn(8), M: r.Intn(3), P: 1 + r.Intn(6)}
 		}
+		if h.Front == "fuse" && r.Chance(4) {
+			// the kernel drops (M=0: all, M=1: one of) its references to a node
+			o = hop{K: "forget", L: r.Intn(32), M: r.Intn(2)}
+		}
 		h.Ops = append(h.Ops, o)
 	}
 	data, _ := json.Marshal(h)
@@ -195,6 +219,15 @@ type world struct {
 	leaves   []*fakeLeaf
 	failNext bool
 	logged   int
+
+	// front-end histories: objects get their handles from the real handle
+	// allocator of the front end (inode numbers / file handles), wrapped so
+	// that the harness still numbers them in allocation order.
+	realAlloc virtual.StatefulHandleAllocator
+	byObj     map[virtual.Leaf]*fakeLeaf // handle-decorated leaf -> fake
+	keyDir    map[uint64]int             // inode number (= file handle) -> directory
+	keyLeaf   map[uint64]int
+	dirKey    []uint64
 
 	// race support: the next NewFile parks (holding the lock of the directory
 	// it creates the file in) until released; GetAttributes of directory
@@ -221,12 +254,34 @@ type fakeLeaf struct {
 	kind  int
 	nlink int
 	tag   int
+	self  virtual.LinkableLeaf // what directories hold: the leaf itself, or the leaf decorated by the front end's handle allocator
+	key   uint64               // inode number given by the front end's handle allocator
 }
 
 func (w *world) newLeaf(kind, tag int) *fakeLeaf {
 	l := &fakeLeaf{id: len(w.leaves), kind: kind, nlink: 1, tag: tag}
+	l.self = l
 	w.leaves = append(w.leaves, l)
+	if w.realAlloc != nil {
+		l.self = w.realAlloc.New().AsLinkableLeaf(l)
+		var attributes virtual.Attributes
+		l.self.VirtualGetAttributes(context.Background(), virtual.AttributesMaskInodeNumber, &attributes)
+		l.key = attributes.GetInodeNumber()
+		w.byObj[l.self] = l
+		w.keyLeaf[l.key] = l.id
+	}
 	return l
+}
+
+// leafOf maps a leaf handed out by the directory code back to the fake.
+func (w *world) leafOf(leaf virtual.Leaf) *fakeLeaf {
+	if l, ok := leaf.(*fakeLeaf); ok {
+		return l
+	}
+	if l, ok := w.byObj[leaf]; ok {
+		return l
+	}
+	panic("harness: unknown leaf object")
 }
 
 func (l *fakeLeaf) fileType() filesystem.FileType {
@@ -249,6 +304,8 @@ func (l *fakeLeaf) VirtualGetAttributes(ctx context.Context, requested virtual.A
 	attributes.SetPermissions(virtual.PermissionsRead | virtual.PermissionsWrite)
 	attributes.SetSizeBytes(0)
 	attributes.SetInodeNumber(uint64(1000 + l.id))
+	attributes.SetIsInNamedAttributeDirectory(false)
+	attributes.SetHasNamedAttributes(false)
 }
 
 func (l *fakeLeaf) VirtualSetAttributes(ctx context.Context, in *virtual.Attributes, requested virtual.AttributesMask, attributes *virtual.Attributes) virtual.Status {
@@ -311,7 +368,7 @@ func (a *fileAllocator) NewFile(holeSource pool.HoleSource, isExecutable bool, s
 		a.w.parked <- struct{}{}
 		<-a.w.release
 	}
-	return a.w.newLeaf(kFile, a.tag), nil
+	return a.w.newLeaf(kFile, a.tag).self, nil
 }
 
 type symlinkFactory struct {
@@ -324,7 +381,7 @@ func (f *symlinkFactory) LookupSymlink(target path.Parser) (virtual.LinkableLeaf
 		f.w.failNext = false
 		return nil, errors.New("injected symlink failure")
 	}
-	return f.w.newLeaf(kSymlink, f.tag), nil
+	return f.w.newLeaf(kSymlink, f.tag).self, nil
 }
 
 type errorLogger struct{ w *world }
@@ -359,12 +416,13 @@ func (h *handleAllocation) AsLinkableLeaf(leaf virtual.LinkableLeaf) virtual.Lin
 	if attributes.GetFileType() == filesystem.FileTypeFIFO {
 		kind = kFifo
 	}
-	return h.w.newLeaf(kind, 0)
+	return h.w.newLeaf(kind, 0).self
 }
 
 type dirHandle struct {
-	w  *world
-	id int
+	w    *world
+	id   int
+	real virtual.StatefulDirectoryHandle // front-end histories: the handle of the front end's allocator
 }
 
 func (h *handleAllocation) AsStatefulDirectory(directory virtual.Directory) virtual.StatefulDirectoryHandle {
@@ -373,18 +431,41 @@ func (h *handleAllocation) AsStatefulDirectory(directory virtual.Directory) virt
 	w.dirs = append(w.dirs, directory.(virtual.PrepopulatedDirectory))
 	w.dirID[directory] = id
 	w.released = append(w.released, 0)
-	return &dirHandle{w: w, id: id}
+	dh := &dirHandle{w: w, id: id}
+	key := uint64(id)
+	if w.realAlloc != nil {
+		dh.real = w.realAlloc.New().AsStatefulDirectory(directory)
+		var attributes virtual.Attributes
+		dh.real.GetAttributes(virtual.AttributesMaskInodeNumber, &attributes)
+		key = attributes.GetInodeNumber()
+		w.keyDir[key] = id
+	}
+	w.dirKey = append(w.dirKey, key)
+	return dh
 }
 func (h *dirHandle) GetAttributes(requested virtual.AttributesMask, attributes *virtual.Attributes) {
-	attributes.SetInodeNumber(uint64(h.id))
+	if h.real != nil {
+		h.real.GetAttributes(requested, attributes)
+	} else {
+		attributes.SetInodeNumber(uint64(h.id))
+	}
 	if w := h.w; w.watchDir == h.id && w.reached != nil {
 		ch := w.reached
 		w.reached = nil
 		ch <- w.rows()
 	}
 }
-func (h *dirHandle) NotifyRemoval(name path.Component) {}
-func (h *dirHandle) Release()                          { h.w.released[h.id]++ }
+func (h *dirHandle) NotifyRemoval(name path.Component) {
+	if h.real != nil {
+		h.real.NotifyRemoval(name)
+	}
+}
+func (h *dirHandle) Release() {
+	h.w.released[h.id]++
+	if h.real != nil {
+		h.real.Release()
+	}
+}
 
 func hiddenMatcher(s string) bool { return strings.HasPrefix(s, ".h") }
 
@@ -430,7 +511,18 @@ type rentry struct {
 	name   string
 	child  string
 	attr   int64
+
+	// front-end histories
+	rawCookie string // the offset as the front end sent it, under the adapter's decoding function
+	fill      int    // the front end does not transport the attribute: fillDirChange / fillLeafLinks from the dump
+	fillID    int
 }
+
+const (
+	fillNone = iota
+	fillDirChange
+	fillLeafLinks
+)
 
 type result struct {
 	status  string
@@ -441,9 +533,14 @@ type result struct {
 	entries []rentry
 	visited []int
 	uninit  int
+
+	// front-end histories
+	rawStatus string // the status number as the front end sent it, under the adapter's decoding function
+	attrDir   int    // >= 0: the front end does not transport change counters: attr = counter of that directory in the dump
+	ciDirs    []int  // the front end does not transport ChangeInfo: (before, after) of these directories from the dumps
 }
 
-func newResult() *result { return &result{status: "SOK", attr: -1} }
+func newResult() *result { return &result{status: "SOK", attr: -1, attrDir: -1} }
 
 func (r *result) term() string {
 	child := "None"
@@ -455,12 +552,20 @@ func (r *result) term() string {
 		ci = append(ci, "("+g.N(c[0])+", "+g.N(c[1])+")")
 	}
 	for _, e := range r.entries {
-		es = append(es, g.App("mkR", g.N(e.cookie), g.Str(e.name), e.child, g.Z(e.attr)))
+		cookie := g.N(e.cookie)
+		if e.rawCookie != "" {
+			cookie = e.rawCookie
+		}
+		es = append(es, g.App("mkR", cookie, g.Str(e.name), e.child, g.Z(e.attr)))
 	}
 	for _, v := range r.visited {
 		vs = append(vs, fmt.Sprint(v))
 	}
-	return g.App("mkOut", r.status, child, g.Z(r.attr), fmt.Sprint(r.tag), g.List(ci), g.List(es), g.List(vs), fmt.Sprint(r.uninit))
+	status := r.status
+	if r.rawStatus != "" {
+		status = r.rawStatus
+	}
+	return g.App("mkOut", status, child, g.Z(r.attr), fmt.Sprint(r.tag), g.List(ci), g.List(es), g.List(vs), fmt.Sprint(r.uninit))
 }
 
 func cdir(id int) string  { return fmt.Sprintf("(CDir %d)", id) }
@@ -480,7 +585,7 @@ func (w *world) childTerm(directory virtual.Directory, leaf virtual.Leaf, attrib
 	if directory != nil {
 		return cdir(w.dirID[directory]), int64(attributes.GetChangeID())
 	}
-	return cleaf(leaf.(*fakeLeaf).id), int64(int32(attributes.GetLinkCount()))
+	return cleaf(w.leafOf(leaf).id), int64(int32(attributes.GetLinkCount()))
 }
 
 func (p *pageReporter) ReportEntry(nextCookie uint64, name path.Component, child virtual.DirectoryChild, attributes *virtual.Attributes) bool {
@@ -521,7 +626,25 @@ func (area) Execute(raw json.RawMessage) (term string, info *hcommon.Info, err e
 	}
 	info = hcommon.NewInfo()
 	ctx := context.Background()
-	w := &world{dirID: map[virtual.Directory]int{}, watchDir: -1}
+	w := &world{dirID: map[virtual.Directory]int{}, watchDir: -1,
+		byObj: map[virtual.Leaf]*fakeLeaf{}, keyDir: map[uint64]int{}, keyLeaf: map[uint64]int{}}
+	front := h.Front
+	if front == "direct" {
+		front = ""
+	}
+	var fuseAlloc *virtual.FUSEStatefulHandleAllocator
+	var nfsAlloc *virtual.NFSStatefulHandleAllocator
+	switch front {
+	case "":
+	case "fuse":
+		fuseAlloc = virtual.NewFUSEHandleAllocator(&counterRNG{})
+		w.realAlloc = fuseAlloc
+	case "nfs41":
+		nfsAlloc = virtual.NewNFSHandleAllocator(&counterRNG{})
+		w.realAlloc = nfsAlloc
+	default:
+		return "", nil, fmt.Errorf("unknown front end %q", h.Front)
+	}
 	normalizer := virtual.CaseSensitiveComponentNormalizer
 	if h.CI {
 		normalizer = virtual.CaseInsensitiveComponentNormalizer
@@ -533,11 +656,33 @@ func (area) Execute(raw json.RawMessage) (term string, info *hcommon.Info, err e
 		return s
 	}
 	setter := func(requested virtual.AttributesMask, attributes *virtual.Attributes) {}
-	virtual.NewInMemoryPrepopulatedDirectory(
+	root := virtual.NewInMemoryPrepopulatedDirectory(
 		&fileAllocator{w: w}, &symlinkFactory{w: w}, errorLogger{w}, &handleAllocator{w: w},
 		sort.Sort, hiddenMatcher, clock.SystemClock, normalizer, setter, virtual.NoNamedAttributesFactory)
 
 	var ops, obs []string
+	// what the front end did against its own protocol (Front.v: fc_proto)
+	var proto []string
+	protocol := func(what string) {
+		step := len(ops)
+		proto = append(proto, fmt.Sprintf("(%d, %s)", step, g.Str(what)))
+		info.Outs["front-protocol:"+what]++
+	}
+	var fe frontEnd
+	switch front {
+	case "fuse":
+		fe = newFuseFront(w, root, fuseAlloc, protocol)
+	case "nfs41":
+		var err error
+		if fe, err = newNFSFront(w, root, nfsAlloc, protocol); err != nil {
+			return "", nil, err
+		}
+	}
+	frontName := front
+	if frontName == "" {
+		frontName = "direct"
+	}
+	info.Outs["history@"+frontName]++
 	parent := map[int]int{}
 	lastCookies := map[int][]uint64{} // cookies returned by the listing in progress, per directory
 	stopped := false
@@ -562,23 +707,60 @@ func (area) Execute(raw json.RawMessage) (term string, info *hcommon.Info, err e
 			}
 		}
 		var ds, ls []string
+		before := map[int]uint64{}
+		for i, c := range lastChange {
+			before[i] = c
+		}
 		for i, d := range w.dirs {
 			changeID := lastChange[i] // a directory locked on purpose cannot have changed
+			released := w.released[i] > 0
 			if free[i] {
-				var attributes virtual.Attributes
-				d.VirtualGetAttributes(ctx, virtual.AttributesMaskChangeID, &attributes)
-				changeID = attributes.GetChangeID()
+				// through the front end where it transports the change
+				// attribute (NFSv4 GETATTR), else from the object
+				seen := false
+				if fe != nil {
+					changeID, seen, released = fe.dirState(i)
+				}
+				if !seen {
+					var attributes virtual.Attributes
+					d.VirtualGetAttributes(ctx, virtual.AttributesMaskChangeID, &attributes)
+					changeID = attributes.GetChangeID()
+				}
 				lastChange[i] = changeID
 			} else if i != busy {
 				changeID = 0
 			}
-			ds = append(ds, "("+g.N(changeID)+", "+g.Bool(w.released[i] > 0)+")")
+			ds = append(ds, "("+g.N(changeID)+", "+g.Bool(released)+")")
 			if w.released[i] > 1 {
 				info.Outs["double-release"]++
 			}
 		}
-		for _, l := range w.leaves {
-			ls = append(ls, g.Z(int64(l.nlink)))
+		links := make([]int64, len(w.leaves))
+		for i, l := range w.leaves {
+			links[i] = int64(l.nlink)
+			if fe != nil {
+				links[i] = fe.leafLinks(l)
+			}
+			ls = append(ls, g.Z(links[i]))
+		}
+		// what the front end does not transport is taken from the dump
+		if r.attrDir >= 0 {
+			r.attr = int64(lastChange[r.attrDir])
+		}
+		if r.status == "SOK" {
+			for _, i := range r.ciDirs {
+				r.ci = append(r.ci, [2]uint64{before[i], lastChange[i]})
+			}
+		}
+		for i := range r.entries {
+			switch e := &r.entries[i]; e.fill {
+			case fillDirChange:
+				e.attr = int64(lastChange[e.fillID])
+			case fillLeafLinks:
+				if e.fillID < len(links) {
+					e.attr = links[e.fillID]
+				}
+			}
 		}
 		obs = append(obs, g.App("mkObs", r.term(), g.App("mkDump", g.List(ds), g.List(ls)), g.Str(leak)))
 		if leak != "" {
@@ -604,31 +786,79 @@ func (area) Execute(raw json.RawMessage) (term string, info *hcommon.Info, err e
 		}
 	}
 
-	vlookup := func(d int, name string) *result {
+	// viaFront delivers a kernel-facing call through the front end of the
+	// history.  ok = false: there is none, or it cannot address the objects
+	// (a node the kernel does not hold, a handle that went stale with its
+	// directory): the caller uses the direct API.
+	viaFront := func(method string, f func() *result) (*result, bool) {
+		if fe == nil {
+			return nil, false
+		}
+		var fr *result
 		r := newResult()
-		run(r, func() {
-			var attributes virtual.Attributes
-			child, s := w.dirs[d].VirtualLookup(ctx, path.MustNewComponent(name), attrMask, &attributes)
-			r.status = statusName(s)
-			if s == virtual.StatusOK {
-				directory, leaf := child.GetPair()
-				r.child, r.attr = w.childTerm(directory, leaf, &attributes)
-			}
-		})
+		run(r, func() { fr = f() })
+		if r.status != "SOK" { // panic or hang inside the front end
+			info.Ops[method+"@"+front]++
+			return r, true
+		}
+		if fr == nil {
+			info.Ops[method+"@"+front+":direct-fallback"]++
+			return nil, false
+		}
+		info.Ops[method+"@"+front]++
+		return fr, true
+	}
+	dirOf := func(child string) int {
+		id := -1
+		fmt.Sscanf(child, "(CDir %d)", &id)
+		return id
+	}
+
+	vlookup := func(d int, name string) *result {
+		r, ok := viaFront("VirtualLookup", func() *result { return fe.lookup(d, name) })
+		if !ok {
+			r = newResult()
+			run(r, func() {
+				var attributes virtual.Attributes
+				child, s := w.dirs[d].VirtualLookup(ctx, path.MustNewComponent(name), attrMask, &attributes)
+				r.status = statusName(s)
+				if s == virtual.StatusOK {
+					directory, leaf := child.GetPair()
+					r.child, r.attr = w.childTerm(directory, leaf, &attributes)
+				}
+			})
+		}
 		observe(g.App("OVLookup", fmt.Sprint(d), g.Str(name)), "VirtualLookup", r)
 		return r
 	}
 
-	readdirPage := func(d int, cookie uint64, page int) *result {
-		r := newResult()
-		run(r, func() {
-			rep := &pageReporter{w: w, max: page}
-			s := w.dirs[d].VirtualReadDir(ctx, cookie, attrMask, rep)
-			r.status = statusName(s)
-			r.entries = rep.rows
-		})
-		observe(g.App("OVReadDir", fmt.Sprint(d), g.N(cookie), fmt.Sprint(page)), "VirtualReadDir", r)
-		return r
+	// readdirPage reads one page of directory d from cookie; through a front
+	// end the page size is what the front end made of it (NFSv4 pages are
+	// limited in bytes) and is returned.
+	readdirPage := func(d int, cookie uint64, page, variant int, useFront bool) (*result, int) {
+		cookieTerm := g.N(cookie)
+		var r *result
+		ok := false
+		if useFront {
+			r, ok = viaFront("VirtualReadDir", func() *result {
+				fr, ct, p := fe.readdir(d, cookie, page, variant)
+				if fr != nil {
+					cookieTerm, page = ct, p
+				}
+				return fr
+			})
+		}
+		if !ok {
+			r = newResult()
+			run(r, func() {
+				rep := &pageReporter{w: w, max: page}
+				s := w.dirs[d].VirtualReadDir(ctx, cookie, attrMask, rep)
+				r.status = statusName(s)
+				r.entries = rep.rows
+			})
+		}
+		observe(g.App("OVReadDir", fmt.Sprint(d), cookieTerm, fmt.Sprint(page)), "VirtualReadDir", r)
+		return r, page
 	}
 
 	lookupAll := func(d int) {
@@ -640,7 +870,7 @@ func (area) Execute(raw json.RawMessage) (term string, info *hcommon.Info, err e
 				r.entries = append(r.entries, rentry{name: e.Name.String(), child: cdir(w.dirID[virtual.Directory(e.Child)]), attr: -1})
 			}
 			for _, e := range leaves {
-				r.entries = append(r.entries, rentry{name: e.Name.String(), child: cleaf(e.Child.(*fakeLeaf).id), attr: -1})
+				r.entries = append(r.entries, rentry{name: e.Name.String(), child: cleaf(w.leafOf(e.Child).id), attr: -1})
 			}
 		})
 		observe(g.App("OLookupAll", fmt.Sprint(d)), "LookupAllChildren", r)
@@ -656,6 +886,14 @@ func (area) Execute(raw json.RawMessage) (term string, info *hcommon.Info, err e
 		comp := path.MustNewComponent(name)
 		r := newResult()
 		switch o.K {
+		case "forget":
+			// FUSE: the kernel lets go of a node (no model operation: the
+			// file system must behave as before; later calls on a node the
+			// kernel no longer holds use the direct API)
+			if fe != nil {
+				fe.forget(o.L, o.M)
+			}
+
 		case "vlookup":
 			vlookup(d, name)
 
@@ -664,29 +902,33 @@ func (area) Execute(raw json.RawMessage) (term string, info *hcommon.Info, err e
 				continue
 			}
 			w.failNext = o.F
-			run(r, func() {
-				var createAttributes *virtual.Attributes
-				if o.A {
-					createAttributes = (&virtual.Attributes{}).SetPermissions(virtual.PermissionsRead | virtual.PermissionsWrite)
-				}
-				var existingOptions *virtual.OpenExistingOptions
-				if o.B {
-					existingOptions = &virtual.OpenExistingOptions{}
-				}
-				before := len(w.leaves)
-				var attributes virtual.Attributes
-				leaf, _, ci, s := dir.VirtualOpenChild(ctx, comp, virtual.ShareMaskRead, createAttributes, existingOptions, attrMask, &attributes)
-				r.status = statusName(s)
-				if s == virtual.StatusOK {
-					fl := leaf.(*fakeLeaf)
-					r.child = cleaf(fl.id)
-					r.attr = int64(int32(attributes.GetLinkCount()))
-					r.ci = [][2]uint64{{ci.Before, ci.After}}
-					if len(w.leaves) > before {
-						r.tag = fl.tag
+			if fr, ok := viaFront("VirtualOpenChild", func() *result { return fe.open(d, name, o.A, o.B) }); ok {
+				r = fr
+			} else {
+				run(r, func() {
+					var createAttributes *virtual.Attributes
+					if o.A {
+						createAttributes = (&virtual.Attributes{}).SetPermissions(virtual.PermissionsRead | virtual.PermissionsWrite)
 					}
-				}
-			})
+					var existingOptions *virtual.OpenExistingOptions
+					if o.B {
+						existingOptions = &virtual.OpenExistingOptions{}
+					}
+					before := len(w.leaves)
+					var attributes virtual.Attributes
+					leaf, _, ci, s := dir.VirtualOpenChild(ctx, comp, virtual.ShareMaskRead, createAttributes, existingOptions, attrMask, &attributes)
+					r.status = statusName(s)
+					if s == virtual.StatusOK {
+						fl := w.leafOf(leaf)
+						r.child = cleaf(fl.id)
+						r.attr = int64(int32(attributes.GetLinkCount()))
+						r.ci = [][2]uint64{{ci.Before, ci.After}}
+						if len(w.leaves) > before {
+							r.tag = fl.tag
+						}
+					}
+				})
+			}
 			w.failNext = false
 			observe(g.App("OVOpen", fmt.Sprint(d), g.Str(name), g.Bool(o.A), g.Bool(o.B), g.Bool(o.F)), "VirtualOpenChild", r)
 
@@ -694,45 +936,67 @@ func (area) Execute(raw json.RawMessage) (term string, info *hcommon.Info, err e
 			if len(w.dirs) >= maxDirs {
 				continue
 			}
-			run(r, func() {
-				var attributes virtual.Attributes
-				child, ci, s := dir.VirtualMkdir(ctx, comp, &virtual.Attributes{}, attrMask, &attributes)
-				r.status = statusName(s)
-				if s == virtual.StatusOK {
-					id := w.dirID[child]
-					r.child, r.attr = cdir(id), int64(attributes.GetChangeID())
-					r.ci = [][2]uint64{{ci.Before, ci.After}}
-					parent[id] = d
-				}
-			})
+			if fr, ok := viaFront("VirtualMkdir", func() *result { return fe.mkdir(d, name) }); ok {
+				r = fr
+			} else {
+				run(r, func() {
+					var attributes virtual.Attributes
+					child, ci, s := dir.VirtualMkdir(ctx, comp, &virtual.Attributes{}, attrMask, &attributes)
+					r.status = statusName(s)
+					if s == virtual.StatusOK {
+						id := w.dirID[child]
+						r.child, r.attr = cdir(id), int64(attributes.GetChangeID())
+						r.ci = [][2]uint64{{ci.Before, ci.After}}
+					}
+				})
+			}
+			if id := dirOf(r.child); r.status == "SOK" && id >= 0 {
+				parent[id] = d
+			}
 			observe(g.App("OVMkdir", fmt.Sprint(d), g.Str(name)), "VirtualMkdir", r)
 
 		case "vmknod":
 			kinds := []string{"MSymlink", "MFifo", "MSocket", "MBlock"}
 			k := o.M % 4
 			w.failNext = o.F && k == 0
-			run(r, func() {
-				createAttributes := &virtual.Attributes{}
-				switch k {
-				case 0:
-					createAttributes.SetFileType(filesystem.FileTypeSymlink)
-					createAttributes.SetSymlinkTarget(path.UNIXFormat.NewParser("target"))
-				case 1:
-					createAttributes.SetFileType(filesystem.FileTypeFIFO)
-				case 2:
-					createAttributes.SetFileType(filesystem.FileTypeSocket)
-				default:
-					createAttributes.SetFileType(filesystem.FileTypeBlockDevice)
+			if k == 3 && fe != nil && fe.needsLookup() {
+				// FUSE refuses device nodes before consulting the directory;
+				// the kernel only sends MKNOD after a LOOKUP that found nothing
+				w.failNext = false
+				pre := vlookup(d, name)
+				if stopped {
+					break
 				}
-				var attributes virtual.Attributes
-				leaf, ci, s := dir.VirtualMknod(ctx, comp, createAttributes, attrMask, &attributes)
-				r.status = statusName(s)
-				if s == virtual.StatusOK {
-					fl := leaf.(*fakeLeaf)
-					r.child, r.attr, r.tag = cleaf(fl.id), int64(int32(attributes.GetLinkCount())), fl.tag
-					r.ci = [][2]uint64{{ci.Before, ci.After}}
+				if pre.status != "SNoEnt" || w.released[d] > 0 {
+					continue
 				}
-			})
+			}
+			if fr, ok := viaFront("VirtualMknod", func() *result { return fe.mknod(d, name, k) }); ok {
+				r = fr
+			} else {
+				run(r, func() {
+					createAttributes := &virtual.Attributes{}
+					switch k {
+					case 0:
+						createAttributes.SetFileType(filesystem.FileTypeSymlink)
+						createAttributes.SetSymlinkTarget(path.UNIXFormat.NewParser("target"))
+					case 1:
+						createAttributes.SetFileType(filesystem.FileTypeFIFO)
+					case 2:
+						createAttributes.SetFileType(filesystem.FileTypeSocket)
+					default:
+						createAttributes.SetFileType(filesystem.FileTypeBlockDevice)
+					}
+					var attributes virtual.Attributes
+					leaf, ci, s := dir.VirtualMknod(ctx, comp, createAttributes, attrMask, &attributes)
+					r.status = statusName(s)
+					if s == virtual.StatusOK {
+						fl := w.leafOf(leaf)
+						r.child, r.attr, r.tag = cleaf(fl.id), int64(int32(attributes.GetLinkCount())), fl.tag
+						r.ci = [][2]uint64{{ci.Before, ci.After}}
+					}
+				})
+			}
 			w.failNext = false
 			observe(g.App("OVMknod", fmt.Sprint(d), g.Str(name), kinds[k], g.Bool(o.F && k == 0)), "VirtualMknod", r)
 
@@ -741,15 +1005,27 @@ func (area) Execute(raw json.RawMessage) (term string, info *hcommon.Info, err e
 				continue
 			}
 			l := o.L % len(w.leaves)
-			run(r, func() {
-				var attributes virtual.Attributes
-				ci, s := dir.VirtualLink(ctx, comp, w.leaves[l], attrMask, &attributes)
-				r.status = statusName(s)
-				if s == virtual.StatusOK {
-					r.attr = int64(int32(attributes.GetLinkCount()))
-					r.ci = [][2]uint64{{ci.Before, ci.After}}
-				}
-			})
+			if fe != nil && w.leaves[l].nlink <= 0 && !fe.linkDead(w.leaves[l]) {
+				// A leaf without links: the handle allocators of both front ends
+				// refuse to link it again whatever its kind (the harness' bare
+				// leaves only do so for regular files), and an NFSv4 client
+				// cannot even name it (stale handle).  Not sent.
+				info.Outs["front:link-of-dead-leaf-not-sent"]++
+				continue
+			}
+			if fr, ok := viaFront("VirtualLink", func() *result { return fe.link(d, name, l) }); ok {
+				r = fr
+			} else {
+				run(r, func() {
+					var attributes virtual.Attributes
+					ci, s := dir.VirtualLink(ctx, comp, w.leaves[l].self, attrMask, &attributes)
+					r.status = statusName(s)
+					if s == virtual.StatusOK {
+						r.attr = int64(int32(attributes.GetLinkCount()))
+						r.ci = [][2]uint64{{ci.Before, ci.After}}
+					}
+				})
+			}
 			observe(g.App("OVLink", fmt.Sprint(d), g.Str(name), fmt.Sprint(l)), "VirtualLink", r)
 
 		case "vlinkforeign":
@@ -761,15 +1037,29 @@ func (area) Execute(raw json.RawMessage) (term string, info *hcommon.Info, err e
 			observe(g.App("OVLinkForeign", fmt.Sprint(d), g.Str(name)), "VirtualLink", r)
 
 		case "vremove":
-			run(r, func() {
-				ci, s := dir.VirtualRemove(ctx, comp, o.A, o.B)
-				r.status = statusName(s)
-				if s == virtual.StatusOK {
-					r.ci = [][2]uint64{{ci.Before, ci.After}}
-					removeOK++
+			rmDir, rmLeaf := o.A, o.B
+			if fr, ok := viaFront("VirtualRemove", func() *result {
+				// FUSE has rmdir and unlink, NFSv4 a single REMOVE
+				fr, a, b := fe.remove(d, name, o.A, o.B, (o.D+o.N)%2 == 0)
+				if fr != nil {
+					rmDir, rmLeaf = a, b
 				}
-			})
-			observe(g.App("OVRemove", fmt.Sprint(d), g.Str(name), g.Bool(o.A), g.Bool(o.B)), "VirtualRemove", r)
+				return fr
+			}); ok {
+				r = fr
+			} else {
+				run(r, func() {
+					ci, s := dir.VirtualRemove(ctx, comp, o.A, o.B)
+					r.status = statusName(s)
+					if s == virtual.StatusOK {
+						r.ci = [][2]uint64{{ci.Before, ci.After}}
+					}
+				})
+			}
+			if r.status == "SOK" {
+				removeOK++
+			}
+			observe(g.App("OVRemove", fmt.Sprint(d), g.Str(name), g.Bool(rmDir), g.Bool(rmLeaf)), "VirtualRemove", r)
 
 		case "vrename":
 			d2 := o.D2 % len(w.dirs)
@@ -784,17 +1074,20 @@ func (area) Execute(raw json.RawMessage) (term string, info *hcommon.Info, err e
 			if pre.status == "SOK" && strings.HasPrefix(pre.child, "(CDir ") {
 				fmt.Sscanf(pre.child, "(CDir %d)", &moved)
 			}
-			replaced := false
-			run(r, func() {
-				ci1, ci2, s := dir.VirtualRename(ctx, comp, w.dirs[d2], path.MustNewComponent(name2))
-				r.status = statusName(s)
-				if s == virtual.StatusOK {
-					r.ci = [][2]uint64{{ci1.Before, ci1.After}, {ci2.Before, ci2.After}}
-					replaced = ci2.After-ci2.Before > 1 || d != d2
-				}
-			})
+			if fr, ok := viaFront("VirtualRename", func() *result { return fe.rename(d, name, d2, name2) }); ok {
+				r = fr
+			} else {
+				run(r, func() {
+					ci1, ci2, s := dir.VirtualRename(ctx, comp, w.dirs[d2], path.MustNewComponent(name2))
+					r.status = statusName(s)
+					if s == virtual.StatusOK {
+						r.ci = [][2]uint64{{ci1.Before, ci1.After}, {ci2.Before, ci2.After}}
+					}
+				})
+			}
 			observe(g.App("OVRename", fmt.Sprint(d), g.Str(name), fmt.Sprint(d2), g.Str(name2)), "VirtualRename", r)
 			if r.status == "SOK" {
+				replaced := d != d2 || (len(r.ci) == 2 && r.ci[1][1]-r.ci[1][0] > 1)
 				if replaced {
 					renameOK++
 				}
@@ -837,7 +1130,7 @@ func (area) Execute(raw json.RawMessage) (term string, info *hcommon.Info, err e
 			if page < 1 {
 				page = 1
 			}
-			res := readdirPage(d, cookie, page)
+			res, page := readdirPage(d, cookie, page, o.V, true)
 			if res.status == "SOK" {
 				if cookie == 0 {
 					lastCookies[d] = nil
@@ -877,7 +1170,7 @@ func (area) Execute(raw json.RawMessage) (term string, info *hcommon.Info, err e
 			// single listing is recorded as the two pages it must be
 			// equivalent to: before y / from y on, with the mutation and the
 			// parked call in between.
-			full := readdirPage(d, 0, 1000)
+			full, _ := readdirPage(d, 0, 1000, 0, false)
 			if stopped || full.status != "SOK" {
 				break
 			}
@@ -910,7 +1203,7 @@ func (area) Execute(raw json.RawMessage) (term string, info *hcommon.Info, err e
 					leaf, _, ci, s := w.dirs[y].VirtualOpenChild(ctx, path.MustNewComponent(fileName), virtual.ShareMaskRead, createAttributes, nil, attrMask, &attributes)
 					g1.status = statusName(s)
 					if s == virtual.StatusOK {
-						fl := leaf.(*fakeLeaf)
+						fl := w.leafOf(leaf)
 						g1.child, g1.attr, g1.tag = cleaf(fl.id), int64(int32(attributes.GetLinkCount())), fl.tag
 						g1.ci = [][2]uint64{{ci.Before, ci.After}}
 					}
@@ -1002,7 +1295,7 @@ func (area) Execute(raw json.RawMessage) (term string, info *hcommon.Info, err e
 						leaf, ci, s := w.dirs[d].VirtualMknod(ctx, path.MustNewComponent(newName), createAttributes, attrMask, &attributes)
 						mr.status = statusName(s)
 						if s == virtual.StatusOK {
-							fl := leaf.(*fakeLeaf)
+							fl := w.leafOf(leaf)
 							mr.child, mr.attr, mr.tag = cleaf(fl.id), int64(int32(attributes.GetLinkCount())), fl.tag
 							mr.ci = [][2]uint64{{ci.Before, ci.After}}
 						}
@@ -1054,7 +1347,7 @@ func (area) Execute(raw json.RawMessage) (term string, info *hcommon.Info, err e
 					if directory != nil {
 						r.child = cdir(w.dirID[virtual.Directory(directory)])
 					} else {
-						r.child = cleaf(leaf.(*fakeLeaf).id)
+						r.child = cleaf(w.leafOf(leaf).id)
 					}
 				}
 			})
@@ -1131,7 +1424,7 @@ func (area) Execute(raw json.RawMessage) (term string, info *hcommon.Info, err e
 				} else {
 					l := w.newLeaf(k, 0)
 					created = append(created, l)
-					children[path.MustNewComponent(n)] = virtual.InitialChild{}.FromLeaf(l)
+					children[path.MustNewComponent(n)] = virtual.InitialChild{}.FromLeaf(l.self)
 					cs = append(cs, "("+g.Str(n)+", NewLeafC "+[]string{"", "KFile", "KSymlink", "KFifo", "KSocket"}[k]+")")
 				}
 			}
@@ -1142,7 +1435,7 @@ func (area) Execute(raw json.RawMessage) (term string, info *hcommon.Info, err e
 				if err != nil {
 					// a failed call does not take over the references
 					for _, l := range created {
-						l.Unlink()
+						l.self.Unlink()
 					}
 				}
 			})
@@ -1150,6 +1443,15 @@ func (area) Execute(raw json.RawMessage) (term string, info *hcommon.Info, err e
 				parent[id] = d
 			}
 			observe(g.App("OCreateChildren", fmt.Sprint(d), g.List(cs), g.Bool(o.A)), "CreateChildren", r)
+			if fe != nil && fe.needsLookup() && r.status == "SOK" {
+				// FUSE: the kernel learns about directories made behind its back
+				// by looking them up
+				for _, c := range o.C {
+					if c.K%5 == 0 && !stopped {
+						vlookup(d, names[c.N%len(names)])
+					}
+				}
+			}
 
 		case "createandenter":
 			if len(w.dirs) >= maxDirs {
@@ -1167,6 +1469,9 @@ func (area) Execute(raw json.RawMessage) (term string, info *hcommon.Info, err e
 				parent[id] = d
 			}
 			observe(g.App("OCreateAndEnter", fmt.Sprint(d), g.Str(name)), "CreateAndEnterPrepopulatedDirectory", r)
+			if fe != nil && fe.needsLookup() && r.status == "SOK" && !stopped {
+				vlookup(d, name)
+			}
 
 		case "filter":
 			rm := map[int]bool{}
@@ -1194,7 +1499,7 @@ func (area) Execute(raw json.RawMessage) (term string, info *hcommon.Info, err e
 						}
 						return true
 					}
-					id := leaf.(*fakeLeaf).id
+					id := w.leafOf(leaf).id
 					r.visited = append(r.visited, id)
 					if id == stop {
 						return false
@@ -1226,15 +1531,18 @@ func (area) Execute(raw json.RawMessage) (term string, info *hcommon.Info, err e
 
 	// Final contents: a complete listing of every directory, both ways.
 	for d := 0; d < len(w.dirs) && !stopped; d++ {
-		readdirPage(d, 0, 1000)
+		readdirPage(d, 0, 1000, d, true)
 		if !stopped {
 			lookupAll(d)
 		}
 	}
+	if fe != nil && !stopped {
+		fe.finish()
+	}
 
 	info.Nontrivial = renameOK > 0 && removeOK > 0 && longListings > 0
 	info.Extra["max_listing_sessions"] = longListings
-	return g.App("mkCase", g.Bool(h.CI), g.List(ops), g.List(obs)), info, nil
+	return g.App("mkFCase", g.Str(front), g.App("mkCase", g.Bool(h.CI), g.List(ops), g.List(obs)), g.List(proto)), info, nil
 }
 
 func main() { hcommon.Main(area{}) }
